@@ -82,7 +82,8 @@ def tlc(module, cfg, env=None, workers=1, timeout=1800, metadir=None, extra="", 
     md = metadir or os.path.join(WORK, "tlc", "%s-%d-%d" % (module, os.getpid(), int(time.time() * 1000) % 100000000))
     shutil.rmtree(md, ignore_errors=True)
     os.makedirs(md, exist_ok=True)
-    cmd = "java -XX:+UseParallelGC %s -cp /opt/veriftools/tla/tla2tools.jar:/opt/veriftools/tla/CommunityModules-deps.jar tlc2.TLC -workers %s -metadir %s -config %s %s %s" % (
+    gc = "-XX:ParallelGCThreads=2" if str(workers) in ("1", "2") else ""
+    cmd = "java -XX:+UseParallelGC " + gc + " %s -cp /opt/veriftools/tla/tla2tools.jar:/opt/veriftools/tla/CommunityModules-deps.jar tlc2.TLC -workers %s -metadir %s -config %s %s %s" % (
         java_opts, workers, md, cfg, extra, module)
     try:
         rc, out = sh(cmd, timeout=timeout, env=env, cwd=cwd)
